@@ -195,12 +195,18 @@ def ended(trace):
 _W = {}
 
 
-def _init_worker(bindir):
+def _init_worker(bindir, root=None):
     _W["bindir"] = bindir
+    if root:
+        from . import common as _c
+        _c._scratch_root = Path(root)   # workers share the parent's scratch root (removed by the parent)
 
 
-def replay_history(world, history, check, bindir=None, keep=False, log_mode=False, extra_env=None):
+def replay_history(world, history, check, bindir=None, keep=False, log_mode=False, extra_env=None, probes=(),
+                   interleave=(), want_files=False):
     """Replay `history` in a fresh scratch project; run `check(proj, i, obs)` on every step.
+    `probes`: extra (query) ops executed and judged after the last step, not part of the state key.
+    `interleave`: (query) ops executed -- unjudged -- after every step of the history.
     Returns (key, violations(list of (step, sig, detail)), per-step observation summaries)."""
     bindir = bindir or _W["bindir"]
     root = scratch_root() / ("h%d_%d" % (os.getpid(), time.monotonic_ns()))
@@ -217,8 +223,17 @@ def replay_history(world, history, check, bindir=None, keep=False, log_mode=Fals
                 viols.append((i, sig, detail))
             summ.append({"op": op, "rc": obs.get("rc"), "ran": executed(obs.get("trace", [])) if "trace" in obs else None,
                          "pred": (obs.get("pred") or {}).get("ran"), "listing": obs.get("listing"),
-                         "err": (obs.get("err") or "")[-300:] if obs.get("rc") not in (0, None) else ""})
+                         "err": (obs.get("err") or "")[-300:] if obs.get("rc") not in (0, None) else "",
+                         "files": {n: c for n, (c, _i) in obs["after"].items()} if want_files and "after" in obs else None})
+            for q in interleave or ():
+                proj.op(list(q))
         key = proj.key()
+        last = len(history) - 1
+        for q in probes or ():
+            obs = proj.op(list(q))
+            for sig, detail in (check(proj, last, obs) if check else []):
+                viols.append((last, sig, detail))
+            summ[-1].setdefault("probes", []).append({"op": q, "rc": obs.get("rc"), "listing": obs.get("listing")})
         return key, viols, summ
     finally:
         if not keep:
@@ -231,7 +246,20 @@ def _job(args):
     check = getattr(importlib.import_module(mod), checkname)
     t0 = time.time()
     key, viols, summ = replay_history(world, history, check, log_mode=opts.get("log_mode", False),
-                                      extra_env=opts.get("extra_env"))
+                                      extra_env=opts.get("extra_env"), probes=opts.get("probes", ()))
+    if opts.get("shadow") and len(history) >= opts.get("shadow_min_len", 0):
+        # the same history with query commands inserted after every step must behave identically
+        key2, _v2, summ2 = replay_history(world, history, None, log_mode=opts.get("log_mode", False),
+                                          extra_env=opts.get("extra_env"), interleave=opts["shadow"], want_files=True)
+        key1b, _v1, summ1 = replay_history(world, history, None, log_mode=opts.get("log_mode", False),
+                                           extra_env=opts.get("extra_env"), want_files=True)
+        a = [(x["rc"], x["ran"], x["files"]) for x in summ1]
+        b = [(x["rc"], x["ran"], x["files"]) for x in summ2]
+        if a != b or key1b != key2:
+            step = next((i for i, (x, y) in enumerate(zip(a, b)) if x != y), len(history) - 1)
+            viols.append((len(history) - 1, {"kind": "queries-changed-later-behaviour", "world": world.name},
+                          {"first_differing_step": step, "without": summ1, "with": summ2,
+                           "key_differs": key1b != key2}))
     if opts.get("all_steps"):
         return history, key, viols, summ, time.time() - t0
     # only violations at the last step are new (prefixes were judged at their own depth)
@@ -242,7 +270,8 @@ def _job(args):
 class Explorer:
     def __init__(self, bindir, workers=16):
         self.bindir = str(bindir)
-        self.pool = ProcessPoolExecutor(max_workers=workers, initializer=_init_worker, initargs=(self.bindir,))
+        self.pool = ProcessPoolExecutor(max_workers=workers, initializer=_init_worker,
+                                        initargs=(self.bindir, str(scratch_root())))
 
     def close(self):
         self.pool.shutdown(wait=True, cancel_futures=True)
